@@ -328,6 +328,8 @@ ChordAdd(a, b) ==
     ELSE IF Ang12(a) >= 0 /\ Ang12(b) >= 0 /\ EOfAng(Ang12(a) + Ang12(b)) >= 0
          THEN [k |-> "approx", e |-> EOfAng(Ang12(a) + Ang12(b))]
     ELSE [k |-> "open", e |-> Max2(a, b)]            \* strictly between max(a,b)/8 and 4
+\* supplementary squared chord: Angle(a) + Angle(32 - a) = pi exactly (sin^2 + cos^2 = 1)
+ChordSupp(a) == 32 - a
 ChordSub(a, b) ==
     IF b = 0 THEN [k |-> "eq", e |-> a]
     ELSE IF a <= b THEN [k |-> "eq", e |-> 0]
